@@ -248,8 +248,8 @@ func lexVariable(l *lexer) error {
 func lexSegment(l *lexer) error {
 	r := l.next()
 	switch {
-	case unicode.IsLetter(r):
-		l.backup() // the literal starts at this letter
+	case isLiteral(r):
+		l.backup() // the literal starts at this rune
 		return lexLiteral(l)
 	case r == '*':
 		rn := l.next()
